@@ -96,7 +96,7 @@ EXTRA = {
  'C01': "Also: the error of the deferred final flush in storeBuilder.Close reaches its named result and every footer write gates success; a commit reads the version it clones inside the write hold that installs the result; with CURRENT present a new journal is reachable only through a successful replay. The rollup's three manifest commits are ordered: the source's delete-rollup marks are committed before any target drops its reference marks (rule shared with C04). The obsolete-file scans of an open run only after a successful open, and a torn final manifest record ends the replay instead of failing it (F25, fixed); the rollup's reference cleaning requires the TRUE outcome of the source commit (F23, fixed; shared with C04). A table builder becomes a table file whenever it holds a key: flush and compaction decide by Count(), never by the number of value bytes (F26, fixed).",
  'C02': "Also: a commit's base version (GetSnapshot/GetCurrent/Clone) is read in the same write hold of the version-set mutex that installs the new version, so overlapping commits cannot clone one base. The pending-output claim of a new table file is dropped only after the commit that makes a version reference the file (flush and compaction).",
  'C03': "Also: a source block hands out field data only on the found-edge of the lookup of the requested field id; level-1 inputs of an L0 compaction pass through a set keyed by file number (each file merged once); the compaction job is single-flight (flag claimed by CompareAndSwap, job started only by the claimer). The per-block scanner of the merge advances to its next container only when its current high key is SMALLER than the requested one and answers only on an exact match; the series merger positions each input block's decoder with that block's own slot range and writes only what the encoder produced over the target range.",
- 'C04': "Also: the rollup job is single-flight (CAS claim, no blind Store(true)); the reference record is written, looked up and deleted under the same key (source store, source family id, file). The series merger decodes every input block over the block's own slot range (rule shared with C03). The targets' reference records are cleaned only on the TRUE outcome of the source family's commit (F23, fixed); every requested source file becomes an input of the rollup merge or the work fails — a file compacted out of level 0 is not passed over (F24, fixed).",
+ 'C04': "Also: the rollup job is single-flight (CAS claim, no blind Store(true)); the reference record is written, looked up and deleted under the same key (source store, source family id, file). The series merger decodes every input block over the block's own slot range (rule shared with C03). The targets' reference records are cleaned only on the TRUE outcome of the source family's commit (F23, fixed); every requested source file becomes an input of the rollup merge or the work fails — a file compacted out of level 0 is not passed over (F24, fixed). A calculator's modulus is never below its family length (table); Last/First over several input blocks are decided by comparing source slots, not by block order (F29, fixed).",
  'C05': "Also: a failed page acquisition leaves the write cursor untouched (no cursor store before a failing exit, page switch only after AcquirePage succeeded); index page and slot are computed from one sequence in writer, reader, GC and reopen, reopen using exactly the appended sequence; no page read in Get is reachable once the sequence was found out of range. The index entry of a message is written into the cached index page only when the cached page index was compared EQUAL to seq / indexItemsPerPage or just switched to it (the appended sequence can move backwards); data pages are mapped with a size provably >= the constant alloc rolls over at.",
  'C06': "Also: every position written by an explicit reset is persisted in the same hold. A consumer group is opened (positions lifted to the queue-wide ack read at that moment) and registered in ONE write hold of the map lock that Sync reads under.",
  'C07': "Also: a consumer group is empty only when appended <= ACKNOWLEDGED (never the consumed position), and the expiry of a partition asks every group: a family log is not collected while applied-but-unflushed entries exist. Once one group answered non-empty, IsExpire can only return false (path-sensitive boolean constant propagation); the id sequences are synced before the metadata dictionaries are flushed (rule shared with C09). The sequence key of a local replicator is the channel's leader and a flusher records every sequence it is given (0 included); an entry's sequence must be committed inside the write bracket of its rows — the one call site that does not is the recorded finding F28.",
